@@ -27,3 +27,21 @@ PROPS.update({
         "not_decided": "Completion after resume, timers counting only un-suspended time (timing).",
     },
 })
+
+TECHNIQUE = {
+    "C01": "guarded reachability + provenance over MIR (world-set dataflow, who-may-call)",
+    "C04": "typestate: interprocedural path-sensitive dataflow over MIR, must-pass-through, who-may-call",
+    "C10": "call-graph reachability + typestate dataflow over MIR",
+    "C13": "dispatch-table agreement + loop-structure (must-pass-through, sticky flag) rules over MIR",
+    "C18": "guarded reachability of enabling writes (interprocedural world-set dataflow)",
+    "C19": "return-value-conditioned dataflow of the send gate + select! precondition shape + guarded timer arming",
+}
+
+_WIP = "check not built yet in this round (to be claimed or declared not applicable with its reason before the end of the round)"
+NOT_APPLICABLE = {
+    "C02": "liveness over fault sequences x schedules x timer values: no static argument in reach bounds the interleavings or shows progress; its necessary wiring is decided under C08/C09/C17/C04 where it has a home",
+    "C03": "termination within a bound fixed by timeouts and limits quantifies over time and schedules; the structural fragments are far from the property and a timer x state abstraction would be a hand-built model (a different technique)",
+}
+for _p in ["C%02d" % i for i in range(1, 21)]:
+    if _p not in PROPS and _p not in NOT_APPLICABLE:
+        NOT_APPLICABLE[_p] = _WIP
